@@ -74,6 +74,8 @@ type cliCall struct {
 	query bool
 	// outBag: the command prints unaligned sequences whatever the receiver is
 	outBag bool
+	// files: the command writes one alignment per file (in this order) instead of printing one
+	files []string
 }
 
 var reStart = regexp.MustCompile(`number of start [^=]*=(-?\d+)`)
@@ -620,6 +622,24 @@ func (c *cliFront) plan(o *obj, st Step) (*cliCall, string) {
 			return nil, "names"
 		}
 		return &cliCall{argv: []string{"subseq", "--ref-seq=" + string(nm), "--start=" + strconv.Itoa(ai(a, "start")), "--length=" + strconv.Itoa(ai(a, "len"))}}, ""
+	case "Split":
+		if !needsAlign() {
+			return nil, "bag"
+		}
+		text, names := partitionText(a)
+		pf := filepath.Join(c.dir, "partition.txt")
+		if os.WriteFile(pf, []byte(text), 0o644) != nil {
+			return nil, "names"
+		}
+		files := []string{}
+		old, _ := filepath.Glob(filepath.Join(c.dir, "sp_*"))
+		for _, f := range old {
+			os.Remove(f)
+		}
+		for _, n := range names {
+			files = append(files, filepath.Join(c.dir, "sp_"+n+".fa"))
+		}
+		return &cliCall{argv: []string{"split", "--partition", pf, "-o", filepath.Join(c.dir, "sp_")}, files: files}, ""
 	case "SubAlign":
 		if !needsAlign() {
 			return nil, "bag"
@@ -732,7 +752,7 @@ func (h *heapRun) cliStep(env *Env, c *cliFront, id string, i int, st Step) {
 	if ev.A["a"] == nil {
 		ev.A["a"] = map[string]interface{}{"z": 0}
 	}
-	added := false
+	added := 0
 	if err != nil {
 		if _, isExit := err.(*exec.ExitError); !isExit {
 			fmt.Fprintln(os.Stderr, "driver: cannot run goalign:", err)
@@ -751,48 +771,65 @@ func (h *heapRun) cliStep(env *Env, c *cliFront, id string, i int, st Step) {
 		}
 		ev.A["full"] = true
 	} else {
-		// what the command printed, as an object of the receiver's kind and alphabet
-		var no *obj
-		if o.al != nil && !call.outBag {
-			al := align.NewAlign(o.sb.Alphabet())
-			no = &obj{"align", al, al}
-		} else {
-			no = &obj{"bag", nil, align.NewSeqBag(o.sb.Alphabet())}
-		}
-		// the FASTA the writer prints: a '>' line per entry, then its residues (possibly none) on the following lines
-		good := true
-		var name string
-		var seq []byte
-		have := false
-		seenNames := map[string]bool{}
-		flush := func() {
-			if have {
-				if seenNames[name] {
-					good = false // the object cannot be rebuilt with the names as printed (AddSequence renames duplicates)
+		// what the command printed (or wrote, one file per object), as objects of the receiver's kind and alphabet
+		texts := []string{stdout.String()}
+		if call.files != nil {
+			texts = []string{}
+			for _, f := range call.files {
+				b, e := os.ReadFile(f)
+				if e != nil {
+					c.skipped["output"]++
+					return
 				}
-				seenNames[name] = true
-				if e := no.sb.AddSequenceChar(name, seq, ""); e != nil {
+				texts = append(texts, string(b))
+			}
+		}
+		nadded := 0
+		for _, text := range texts {
+			var no *obj
+			if o.al != nil && !call.outBag {
+				al := align.NewAlign(o.sb.Alphabet())
+				no = &obj{"align", al, al}
+			} else {
+				no = &obj{"bag", nil, align.NewSeqBag(o.sb.Alphabet())}
+			}
+			// the FASTA the writer prints: a '>' line per entry, then its residues (possibly none) on the following lines
+			good := true
+			var name string
+			var seq []byte
+			have := false
+			seenNames := map[string]bool{}
+			flush := func() {
+				if have {
+					if seenNames[name] {
+						good = false // the object cannot be rebuilt with the names as printed (AddSequence renames duplicates)
+					}
+					seenNames[name] = true
+					if e := no.sb.AddSequenceChar(name, seq, ""); e != nil {
+						good = false
+					}
+				}
+			}
+			for _, line := range strings.Split(text, "\n") {
+				if strings.HasPrefix(line, ">") {
+					flush()
+					name, seq, have = line[1:], []byte{}, true
+				} else if have {
+					seq = append(seq, []byte(line)...)
+				} else if strings.TrimSpace(line) != "" {
 					good = false
 				}
 			}
-		}
-		for _, line := range strings.Split(stdout.String(), "\n") {
-			if strings.HasPrefix(line, ">") {
-				flush()
-				name, seq, have = line[1:], []byte{}, true
-			} else if have {
-				seq = append(seq, []byte(line)...)
-			} else if strings.TrimSpace(line) != "" {
-				good = false
+			flush()
+			if !good {
+				c.skipped["output"]++
+				h.objs = h.objs[:len(h.objs)-nadded]
+				return
 			}
+			h.objs = append(h.objs, no)
+			nadded++
 		}
-		flush()
-		if !good {
-			c.skipped["output"]++
-			return
-		}
-		h.objs = append(h.objs, no)
-		added = true
+		added = nadded
 		ev.Kind = "ok"
 		if call.ret != nil {
 			ev.A["full"] = call.ret(stdout.String(), stderr.String(), ret)
@@ -810,7 +847,7 @@ func (h *heapRun) cliStep(env *Env, c *cliFront, id string, i int, st Step) {
 		}()
 	}
 	env.Emit(ev)
-	if added {
+	for ; added > 0; added-- {
 		h.objs = h.objs[:len(h.objs)-1]
 		env.Emit(map[string]interface{}{"h": id, "i": i + 1, "op": "Drop"})
 	}
